@@ -2040,7 +2040,14 @@ func (s *Server) Serve(ln net.Listener) error {
 		}
 		s.setState(c, StateNew)
 		s.open.Add(1)
-		if !wp.Serve(c) {
+		// Concurrency bounds the connections of the whole Server: of every
+		// Serve call and of ServeConn, not only of this worker pool.
+		served := s.tryAcquireConcurrency()
+		if served && !wp.Serve(c) {
+			s.releaseConcurrency()
+			served = false
+		}
+		if !served {
 			s.open.Add(-1)
 			s.rejectedRequestsCount.Add(1)
 			s.writeFastError(c, StatusServiceUnavailable,
@@ -2352,8 +2359,11 @@ func (s *Server) serveConnCleanup(countConcurrency bool) {
 	}
 }
 
+// serveConn serves a connection accepted by Serve, whose accept loop has
+// taken the concurrency slot. The slot is given back when it is done.
 func (s *Server) serveConn(c net.Conn) error {
-	return s.serveConnCounted(c, true)
+	defer s.releaseConcurrency()
+	return s.serveConnCounted(c, false)
 }
 
 func (s *Server) serveConnCounted(c net.Conn, countConcurrency bool) error {
